@@ -198,13 +198,13 @@ class Cron(addons.AddonMainTask, block.SBlock):
                     # breaking the asyncio rules for max time tracking accuracy:
                     # doing a blocking sleep, but only for a fraction of a millisecond
                     time.sleep(sleeptime)
-                elif sleeptime <= overhead:
-                    short_sleep = True
-                    await asyncio.sleep(sleeptime)
                 else:
-                    short_sleep = False
+                    # woken up too early (sleeptime <= overhead): sleep the rest, but keep
+                    # listening to reload requests, the estimated overhead may be large
+                    short_sleep = sleeptime <= overhead
                     try:
-                        await asyncio.wait_for(self._queue.get(), sleeptime - overhead)
+                        await asyncio.wait_for(
+                            self._queue.get(), sleeptime if short_sleep else sleeptime - overhead)
                     except asyncio.TimeoutError:
                         pass
                     else:
